@@ -115,6 +115,7 @@ func judge(c engine.Case) engine.Outcome {
 	}
 
 	out := hclwrite.Format(src)
+	saved := string(out)
 
 	// Clause 1: exactly the same sequence of (type, bytes), newline and
 	// comment tokens included; only the spacing between tokens may differ.
@@ -156,6 +157,14 @@ func judge(c engine.Case) engine.Outcome {
 
 	// Clause 3: fixpoint.
 	out2 := hclwrite.Format(out)
+	saved2 := string(out2)
+	// A result must stay what it was when later calls are made (no storage
+	// shared between calls).
+	_ = hclwrite.Format([]byte("zz = [ 1,2 ]\nyy {\n}\n"))
+	out3 := hclwrite.Format(src)
+	if string(out) != saved || string(out2) != saved2 || string(out3) != saved {
+		return engine.Fail("c09.result-changed-by-later-call", "the bytes returned by Format(%q) changed after later Format calls: first %q, now %q / %q / %q", src, saved, out, out2, out3)
+	}
 	if !bytes.Equal(out, out2) {
 		off := firstDiff(out, out2)
 		return engine.Fail("c09.not-idempotent."+spacingSlot(out, off), "Format is not idempotent on %q: first pass %q, second pass %q (first difference at byte %d)", src, out, out2, off)
